@@ -18,6 +18,16 @@
 (*   leave   id                 the entry exits without a callee address   *)
 (*   obs     res, filter, half  = req directly followed by leave           *)
 (*   tick    t                  ms since the start of the scenario         *)
+(*   reload  res, rule, pct, active, clear   the outlier rule of resource  *)
+(*           res was loaded again in the middle of the scenario (through   *)
+(*           outlier.LoadRuleOfResource or outlier.LoadRules, "via"); the  *)
+(*           logged rule is the one in force from now on.  clear = false:  *)
+(*           the embedded circuit-breaker rule is the old one (only the    *)
+(*           percentage / recovery mode / intervals differ, or nothing);   *)
+(*           clear = true: the rule was cleared first.  As in Outlier's    *)
+(*           Reload: known nodes and breakers survive unless cleared, the  *)
+(*           recycle marks always survive, and every later answer is       *)
+(*           judged by the rule now in force.                              *)
 (*   active  node               the retryer's health check of node was     *)
 (*                              answered "healthy" (real timer, thorough)  *)
 (*   recycle visible [nodes]    the recycle timers have fired (real timer, *)
@@ -46,7 +56,7 @@ Trace == ndJsonDeserialize("trace.ndjson")
 
 VARIABLES
     l,        \* next line of Trace
-    g,        \* [tr, cfgs] of the running trace; cfgs[r] = [rule, pct, active] of resource r
+    g,        \* [tr, cfgs] of the running trace; cfgs[r] = [rule, pct, active] of resource r NOW in force (see TReload)
     failed,   \* the running trace already mismatched
     now,
     nbk,      \* resource -> (node -> breaker)
@@ -135,6 +145,20 @@ TTick ==
                   [nbk[r][n] EXCEPT !.ref = Prune(@, BL(g.cfgs[r].rule), g.cfgs[r].rule.I, Ev.t)]]]
     /\ UNCHANGED <<g, failed, inflight, rec, pool>>
 
+\* the rule of one resource is loaded again (Reload of Outlier): the rule in force changes; known nodes and their
+\* breakers stay unless the rule was cleared first; recycle marks, open entries and pooled contexts stay.
+\* There is no observable to judge here: what the reload did shows in the answers of the later requests and in
+\* which nodes the recycle timers forget.
+TReload ==
+    /\ IsEvent("reload")
+    /\ LET r == ResOf(Ev)
+           c == [rule |-> Ev.rule, pct |-> Ev.pct, active |-> Ev.active]
+       IN  /\ r \in DOMAIN g.cfgs
+           /\ Ev.clear \/ c.rule = g.cfgs[r].rule
+           /\ g' = [g EXCEPT !.cfgs[r] = c]
+           /\ nbk' = IF Ev.clear THEN [nbk EXCEPT ![r] = << >>] ELSE nbk
+    /\ UNCHANGED <<now, failed, inflight, rec, pool>>
+
 TActive ==
     /\ IsEvent("active")
     /\ LET r == ResOf(Ev)
@@ -165,6 +189,6 @@ TRecycle ==
 
 TInit == /\ l = 1 /\ now = 0 /\ nbk = << >> /\ inflight = << >> /\ rec = << >> /\ pool = {} /\ failed = FALSE
          /\ g = [tr |-> 0, cfgs |-> << >>]
-TNext == TNew \/ TReq \/ TObs \/ TDone \/ TLeave \/ TTick \/ TActive \/ TRecycle
+TNext == TNew \/ TReq \/ TObs \/ TDone \/ TLeave \/ TTick \/ TReload \/ TActive \/ TRecycle
 TSpec == TInit /\ [][TNext]_tvars
 =============================================================================
